@@ -8,6 +8,7 @@ from email.message import Message
 from hypothesis import strategies as st
 
 import encutils
+from vlib.reported import reported_sub
 from vlib.runner import Sub, Violation, lib
 
 PROPERTY = 'C20'
@@ -148,8 +149,11 @@ def check_table(case, ctx):
 DECLS = ['', '<?xml version="1.0"?>', '<?xml version="1.0" encoding="koi8-r"?>', "<?xml version='1.0' encoding='ISO-8859-5' standalone='yes'?>",
          '<?xml version="1.0" encoding="UTF-16"?>', ' <?xml version="1.0" encoding="koi8-r"?>', '<?xml encoding="x"',
          '<?xml version="1.0"\n encoding="windows-1251" ?>', '<?xml version="1.0" encoding = "koi8-r"?>',
-         "<?xml version = '1.0' encoding\t=\n'ISO-8859-5'?>"]
-DECL_ENC = [None, None, 'koi8-r', 'iso-8859-5', 'utf-16', None, None, 'windows-1251', 'koi8-r', 'iso-8859-5']
+         "<?xml version = '1.0' encoding\t=\n'ISO-8859-5'?>",
+         # other processing instructions are no XML declaration
+         '<?xml-stylesheet type="text/css" href="s.css" title="encoding=\'koi8-r\'"?>\n<a/>', '<?xml-model href="m" encoding="koi8-r"?><a/>',
+         '<?xmlfoo encoding="koi8-r"?>']
+DECL_ENC = [None, None, 'koi8-r', 'iso-8859-5', 'utf-16', None, None, 'windows-1251', 'koi8-r', 'iso-8859-5', None, None, None]
 
 
 @st.composite
@@ -225,7 +229,10 @@ MT = [('application/xml', 'utf-8'), ('application/atom+xml', 'utf-8'), ('applica
       ('application/xml-external-parsed-entity', 'utf-8'), ('text/xml', 'ascii'), ('text/vnd.x+xml', 'ascii'),
       ('text/xml-external-parsed-entity', 'ascii'), ('text/html', 'iso-8859-1'), ('text/css', 'utf-8'),
       ('text/plain', 'iso-8859-1'), ('text/javascript', 'iso-8859-1'), ('image/png', None), ('application/json', None),
-      ('', None), (None, None)]
+      ('', None), (None, None),
+      # only a name that ENDS in +xml belongs to the XML families
+      ('application/foo+xmlx', None), ('application/x+xml-compressed', None), ('application/a+xml+zip', None), ('text/foo+xmlx', 'iso-8859-1'),
+      ('application/vnd.mozilla.xul+xml', 'utf-8'), ('text/a.b+xml', 'ascii')]
 
 
 def media_cases(tier):
@@ -294,3 +301,6 @@ def _quiet_log():
 
 
 SUBS.append(Sub('broken', check_broken, enumerate=broken_cases, shards_quick=1, shards_thorough=1))
+
+
+SUBS.append(reported_sub('C20'))
